@@ -482,6 +482,7 @@ impl Server {
         // Perform atomic pop based on the operation type. A key that holds another type by now has
         // nothing to pop: that is an empty list for this purpose (the client is registered again
         // below), not an error that may leave the event loop and end the server
+        self.storage.expire_if_due(wakeup.db, &wakeup.key);
         let value = match wakeup.op_type {
             super::connection::BlockingOp::BLPop => self.storage.lpop(wakeup.db, &wakeup.key).unwrap_or(None),
             super::connection::BlockingOp::BRPop => self.storage.rpop(wakeup.db, &wakeup.key).unwrap_or(None),
@@ -1243,6 +1244,12 @@ impl Server {
         } else {
             None
         };
+        
+        // Lazy expiry: whatever the command is, a key past its deadline is gone before it runs
+        self.storage.expire_before_command(db, &command_name, parts.iter().skip(1).filter_map(|p| match p {
+            RespFrame::BulkString(Some(bytes)) => Some(bytes.as_slice()),
+            _ => None,
+        }));
         
         // Log to AOF for write commands
         if let Some(aof) = &self.aof_engine {
